@@ -318,10 +318,30 @@ def generic_check(cfg, argv):
     os.makedirs(casedir)
     meta = {"evaluations": 0, "distinct_nontrivial": 0, "rule": "", "samples": [], "distribution": {},
             "oracle_failures": [], "shards": [], "notes": [], "extra": {}}
-    extra_rep = cfg["extra_replace"]() if cfg.get("extra_replace") else None
-    hok, hout, binp = build_harness(cfg["harness"], cfg.get("shims", []), cfg.get("tags", "verif"), extra_rep)
     harness_broken = None
-    if not hok:
+    extra_rep, derive_err = None, None
+    if cfg.get("extra_replace"):
+        # derived overlay copies (clock / random-draw injection): a call pattern that is no longer in the
+        # source means the tie cannot be established on this tree - that is a broken correspondence
+        # (VIOLATION ... no-failing-input-found), not a machinery error
+        import io, contextlib
+        buf = io.StringIO()
+        try:
+            with contextlib.redirect_stderr(buf):
+                extra_rep = cfg["extra_replace"]()
+        except SystemExit:
+            derive_err = buf.getvalue() or "the derived overlay copy could not be produced"
+        except Exception as e:            # noqa
+            derive_err = "%s: %s" % (type(e).__name__, e)
+    if derive_err:
+        hok, hout, binp = False, derive_err, None
+    else:
+        hok, hout, binp = build_harness(cfg["harness"], cfg.get("shims", []), cfg.get("tags", "verif"), extra_rep)
+    if not hok and derive_err:
+        harness_broken = {"what": "the injection overlay can no longer be derived from the source under check (a call the harness redirects - "
+                                  "time.Now(), util.FastRandN(...), a timer - was rewritten): the model can no longer be tied to this code",
+                          "log_tail": derive_err[-2500:]}
+    elif not hok:
         harness_broken = {"what": "the harness no longer builds against /repo (a shim names something that changed)",
                           "log_tail": hout[-2500:]}
     else:
